@@ -48,6 +48,9 @@ def special_inputs():
     add({"m": "DEFINE inc <ID> AS $0 := $99999999999 END DEFINE inc x0"})
     add({"m": "DEFINE <P> ; <P> AS $0 END DEFINE x := 1; y := 2"})
     add({"m": "DEFINE f <ARGS> AS x := 1 END DEFINE f 1, 2"})
+    # a macro that inserts a slot twice and matches its own output: the stream doubles with every pass
+    add({"m": "DEFINE w <V> AS w RUN f WITH $0 , $0 END END DEFINE\nw a\n"})
+    add({"m": "DEFINE PRIO 3 d <ID> := <V> AS d $0 := RUN g WITH $1 , $1 , $1 END END DEFINE d x := 1"})
     add({"m": "DEFINE AS AS AS END DEFINE x := 1"})
     add({"m": "END DEFINE x := 1"})
     add({"m": "x := 1 END END END"})
